@@ -107,7 +107,7 @@ impl Src for Q {
     fn choice(&mut self, n: u8) -> u8 { self.take::<1>()[0] % n }
     fn range_usize(&mut self, lo: usize, hi: usize) -> usize {
         let c = if self.palette { self.take::<1>()[0] as usize } else { usize::from_le_bytes(self.take()) };
-        lo + c % (hi - lo + 1)
+        if c >= lo && c <= hi { c } else { lo + c % (hi - lo + 1) }
     }
     fn u8(&mut self) -> u8 { self.take::<1>()[0] }
     fn bool(&mut self) -> bool { self.take::<1>()[0] & 1 == 1 }
